@@ -172,7 +172,7 @@ def replay(ctx, path):
     drvname = d.get("driver") or "drv_ring"
     drv = ctx.cxx(drvname, [drvname + ".cpp"])
     lines = events_to_script(d["execution"])
-    t = ctx.drive(drv, lines, "replay")
+    t = ctx.drive(drv, lines + core.fault_line(d), "replay")
     bad = ctx.judge("RingTrace" if drvname == "drv_ring" else "CyclicTrace", [t])
     ctx.report(bad)
     return ctx.finish(rule="replay of " + path)
